@@ -266,11 +266,71 @@ def fresh_document_records(repo, rel, cn):
     return out
 
 
+def handle_path_rule(repo, res):
+    """W3 on FileWriter._handle_file_path, by abstract evaluation: for every combination of (file name given or
+    defaulted) x (file exists or not) x (overwrite policy, and the user's reply when asked) the function must answer
+    the empty name exactly when the policy says skip for an existing file, otherwise the effective file name; and the
+    existence test must be made on the effective name."""
+    from ..strdom import NONE, ClassRef, Ev, Obj, PyFunc, Str, Sym, Undecided, _Raise, same, show
+
+    cls = repo.cls(WI, "FileWriter")
+    fn = cls.methods.get("_handle_file_path")
+    pol = repo.cls(WI, "OverwriteExistingFile")
+    if fn is None or pol is None:
+        raise AnalysisError("FileWriter._handle_file_path / OverwriteExistingFile missing")
+    ev0 = Ev(repo)
+    members = {m.name: m for m in ev0.iterate(ClassRef(pol), None)}
+    if set(members) != {"ASK_USER_INPUT", "ALWAYS", "SKIP"}:
+        raise AnalysisError("overwrite policies changed: %s" % sorted(members))
+    qn = "FileWriter._handle_file_path"
+    LANG = [(frozenset("abcdefghijklmnopqrstuvwxyzABCDEFGHIJKLMNOPQRSTUVWXYZ0123456789_-./"), 1, 4096)]
+    for given in (True, False):
+        for exists in (True, False):
+            for pname, reply in (("SKIP", None), ("ALWAYS", None), ("ASK_USER_INPUT", "y"), ("ASK_USER_INPUT", "n")):
+                name = Str([("sym", Sym("given_file_name", lang=LANG))])
+                sid = Str([("sym", Sym("scenario_id", lang=LANG))])
+                suffix = Str.lit(".xml")
+                default = sid + suffix
+                me = Obj(cls, {"scenario": Obj(None, {"scenario_id": Obj(None, {"__str__": sid}, closed=True)}, closed=True), "_get_suffix": PyFunc(lambda a, k: suffix, "_get_suffix")}, label="writer")
+                asked = []
+
+                def path_model(a, k):
+                    p_ = a[0] if a else None
+                    probe = PyFunc(lambda a2, k2: (asked.append(p_), exists)[1], "exists")
+                    return Obj(None, {"is_file": probe, "exists": probe}, closed=True, label="Path(%s)" % show(p_))
+
+                ev = Ev(repo)
+                ev.model_calls["pathlib.Path"] = path_model
+                ev.model_calls["Path"] = path_model
+                for nm in ("os.path.isfile", "os.path.exists", "path.isfile", "path.exists"):
+                    ev.model_calls[nm] = lambda a, k: (asked.append(a[0] if a else None), exists)[1]
+                ev.input_reply = Str.lit(reply) if reply is not None else None
+                label = "%s, file %s, policy %s%s" % ("file name given" if given else "default file name", "exists" if exists else "does not exist", pname, "" if reply is None else " (user answers %r)" % reply)
+                bad = None
+                try:
+                    r = ev.call_fn(ev.bind(fn, cls, me), [name if given else NONE, members[pname]], {}, fn)
+                    eff = name if given else default
+                    skip = exists and (pname == "SKIP" or reply == "n")
+                    if skip:
+                        if not (isinstance(r, Str) and r.is_lit() and r.text() == "") and r is not NONE and r is not False:
+                            bad = "answers %s although the existing file must be skipped" % show(r)
+                    elif not same(r, eff):
+                        bad = "answers %s, expected the file name %s" % (show(r), show(eff))
+                    if bad is None and not any(same(x, eff) for x in asked if x is not None):
+                        bad = "existence is tested on %s, not on the file that will be written (%s)" % ([show(x) for x in asked], show(eff))
+                except _Raise as x:
+                    bad = "raises %s" % x.what
+                except Undecided as x:
+                    raise AnalysisError("%s [%s]: %s" % (qn, label, x))
+                res.check("W3-SKIP", "%s [%s]" % (qn, label), bad is None, cls.mod, fn, "%s [%s]: %s" % (qn, label, bad), "an existing file is overwritten although the policy (or the user) said skip, or a file that may be written is skipped, or the wrong path is tested", qualname=qn)
+
+
 def run(repo, res, tier):
     res.rule("W1-NO-ACCUMULATION", "accumulated writer fields are re-initialised before the first mutation in every public write method", 4)
     res.rule("W2-NO-AMBIENT", "shared module-level cells read while writing are first assigned from the writer's own state", 2)
     res.rule("W3-SKIP", "file sinks are dominated by the skip-return of the overwrite policy", 5)
     res.rule("W4-CLOCK", "no ambient read on the write path other than the date stamp", 1)
+    handle_path_rule(repo, res)
 
     imod = repo.mod(WI)
     # module-level mutable cells: names bound to a class (used as a namespace) or instance at module level
